@@ -56,6 +56,7 @@ def scenario_job(job):
     """one scenario: N updates, queries after the updates listed in job['queries']"""
     bb = _bb()
     N, shape, cap, qpos, max_steps = job['N'], tuple(job['shape']), job['cap'], job['queries'], job.get('max_steps')
+    nq = job.get('nq', 1)
 
     class H(bb.DDEHistory):
         _INITIAL_CAPACITY = cap
@@ -87,7 +88,7 @@ def scenario_job(job):
                 if max_steps is None:
                     raise
                 refused = j
-                results.append(('refused', j, None, None, list(T), list(Yv)))
+                results.append(('refused', j, None, None, list(T), list(Yv), None))
                 continue
             if refused is not None:
                 raise AssertionError(f"update {j} accepted after update {refused} was refused")
@@ -98,16 +99,24 @@ def scenario_job(job):
             T.append(ts[j - 1])
             Yv.append(yj)
             if j in qpos:
-                q = symx.real(f"q{j}")
-                r = h(q)
-                results.append(('query', j, q, r, list(T), list(Yv)))
+                for qi in range(nq):        # several queries on the same object, in any order (lookup must be stateless)
+                    q = symx.real(f"q{j}" + 'abcd'[qi] * (qi > 0))
+                    r = h(q)
+                    results.append(('query', j, q, r, list(T), list(Yv), f"q{j}" + 'abcd'[qi] * (qi > 0)))
         if refused is not None:
             q = symx.real("qend")
             r = h(q)
-            results.append(('query', N, q, r, list(T), list(Yv)))
+            results.append(('query', N, q, r, list(T), list(Yv), 'qend'))
         return results, grow
 
     n_paths = 0
+    out['dtype_probe'] = dtype_probe(job)
+    out['violations'] += out['dtype_probe']
+    if out['dtype_probe']:
+        # the object-dtype records of the symbolic run would not survive either: report the concrete witness only
+        out['tally'] = tally.as_dict()
+        out['paths'] = 1
+        return out
     for pc, res in symx.explore(harness, assumptions=order, max_paths=job.get('max_paths', 3000)):
         n_paths += 1
         if isinstance(res, BaseException):
@@ -116,7 +125,7 @@ def scenario_job(job):
             continue
         results, grow = res
         out['growth_events'] = max(out['growth_events'], grow)
-        for kind, j, q, r, T, Yv in results:
+        for kind, j, q, r, T, Yv, qname in results:
             if kind != 'query':
                 continue
             r = np.asarray(r, dtype=object)
@@ -138,7 +147,7 @@ def scenario_job(job):
                         out['inconclusive'].append(dict(what='sat not reproduced numerically'))
                         continue
                     env, gv, rv_ = dis
-                    rep = _replay_concrete(job, env, j, ix)
+                    rep = _replay_concrete(job, env, j, ix, qname)
                     if rep is not None and abs(rep[0] - rep[1]) > 1e-9 * max(1, abs(rep[1])):
                         tally.sat_confirmed += 1
                         out['violations'].append(dict(
@@ -157,10 +166,12 @@ def scenario_job(job):
     return out
 
 
-def _replay_concrete(job, env, j, ix):
-    """replay the scenario with floats on the real class; returns (got, want) for the query after update j"""
+def _replay_concrete(job, env, j, ix, qname):
+    """replay the scenario (updates AND the same sequence of queries) with floats on the real class; returns (got, want)
+    for the query called qname"""
     import pyrates.backend.base.base_backend as bb
     N, shape, cap = job['N'], tuple(job['shape']), job['cap']
+    nq = job.get('nq', 1)
 
     class H(bb.DDEHistory):
         _INITIAL_CAPACITY = cap
@@ -184,17 +195,81 @@ def _replay_concrete(job, env, j, ix):
         kw = {} if job.get('max_steps') is None else dict(max_steps=job['max_steps'])
         Y = [arr('y0')]
         h = H(Y[0].copy(), t0=T[0], **kw)
-        for i in range(1, j + 1):
+        n_ok = 0
+        found = None
+
+        def ask(name, upto):
+            q = env.get(name, T[upto])
+            got = float(np.asarray(h(q))[ix])
+            want = float(np.interp(q, T[:upto + 1], [float(y[ix]) for y in Y[:upto + 1]]))
+            return got, want
+        for i in range(1, N + 1):
             Y.append(arr(f"y{i}"))
-            h.update(T[i], Y[i].copy())
-        q = env.get(f"q{j}", env.get('qend', T[j]))
-        got = float(np.asarray(h(q))[ix])
-        xs, ys = T[:j + 1], [float(y[ix]) for y in Y]
-        want = float(np.interp(q, xs, ys))
-        return got, want
+            try:
+                h.update(T[i], Y[i].copy())
+            except IndexError:
+                Y.pop()
+                break
+            n_ok = i
+            if i in job['queries']:
+                for qi in range(nq):
+                    name = f"q{i}" + 'abcd'[qi] * (qi > 0)
+                    r = ask(name, i)
+                    if name == qname:
+                        return r
+        if qname == 'qend':
+            return ask('qend', n_ok)
+        return found
     finally:
         if saved is not None:
             bb.float = saved
+
+
+DTYPES = ['complex128', 'int64', 'float32']
+
+
+def dtype_probe(job):
+    """Concrete sentinel for the 'any dtype' clause, which the real-valued encoding cannot express (object dtype stands
+    for float64 there): records of dtype complex128 / int64 / float32 must come back with exactly their
+    value at the record times, across the growth events of the scenario.  Not solver-decided; reported separately."""
+    import pyrates.backend.base.base_backend as bb
+    N, shape, cap = job['N'], tuple(job['shape']), job['cap']
+    if job.get('max_steps') is not None:
+        return []
+
+    class H(bb.DDEHistory):
+        _INITIAL_CAPACITY = cap
+    saved = vars(bb).pop('float', None)
+    bad = []
+    try:
+        for dt in DTYPES:
+            def rec(i):
+                base = np.arange(int(np.prod(shape)) if shape else 1, dtype=float).reshape(shape) + 3 * i
+                if dt == 'complex128':
+                    return (base + 1j * (base + 0.5)).astype(dt)
+                if dt == 'int64':
+                    return (base.astype('int64') + 2 ** 40 + 1)
+                return (base + 0.1).astype(dt)
+            Y = [rec(0)]
+            with np.errstate(all='ignore'):
+                import warnings
+                with warnings.catch_warnings():
+                    warnings.simplefilter('ignore')
+                    h = H(Y[0].copy(), t0=0.0)
+                    for i in range(1, N + 1):
+                        Y.append(rec(i))
+                        h.update(float(i), Y[i].copy())
+                    for i in range(N + 1):
+                        got = np.asarray(h(float(i)))
+                        if got.shape != Y[i].shape or not np.array_equal(got, Y[i]):
+                            bad.append(dict(what=f"DDEHistory (capacity {cap}, {N} updates, shape {shape}): record {i} of "
+                                                 f"dtype {dt} = {Y[i].tolist()} comes back as {got.tolist()} "
+                                                 f"(dtype {got.dtype}) at its own record time", dtype=dt, record=i))
+                            break
+    finally:
+        if saved is not None:
+            bb.float = saved
+    return bad
 
 
 def big_job(job):
@@ -250,6 +325,12 @@ def scenarios(tier):
     for cap in (1, 3):
         for N in (4, 5):
             S.append(dict(N=N, shape=(2,), cap=cap, queries=[N]))
+    # several queries on the same object in arbitrary order (two delays in one right-hand side, rejected adaptive steps)
+    for N in range(2, (5 if tier == 'quick' else 7)):
+        S.append(dict(N=N, shape=(1,), cap=2, queries=[N], nq=2))
+    for N in ((3, 4) if tier == 'quick' else (3, 4, 5)):
+        S.append(dict(N=N, shape=(1,), cap=2, queries=[N], nq=3, max_paths=6000))
+    S.append(dict(N=4, shape=(1,), cap=2, queries=[2, 4], nq=2))
     for c in range(1, 5 if tier == 'quick' else 7):
         S.append(dict(N=c + 1, shape=(1,), cap=2, queries=list(range(1, c + 2)), max_steps=c))
     if tier == 'thorough':
@@ -264,13 +345,13 @@ def run(tier='quick', seed=0, only=None, verbose=False):
                                      'subclass attribute (2-3 growth events); 2100 updates at the real capacity with '
                                      'concrete times (thorough)',
                              shapes='(), (1,), (3,), (2,2)', max_steps='1..4 (quick) / 1..6 (thorough)',
-                             queries='one or two symbolic query times per run, after any update'),
+                             queries='up to three symbolic query times in arbitrary order on the same object, after any update', dtypes='complex128, int64, float32: concrete probe at the record times only (not solver-decided)'),
                  stubs=['module-level name float = identity on Sym injected into pyrates.backend.base.base_backend'],
                  assumptions=['reals for floats (no rounding)', 'record times strictly increasing, t1 > t0',
-                              'object dtype stands for the float dtype: dtype conversion on store is outside'])
+                              'object dtype stands for float64 in the symbolic runs; other dtypes only through the concrete dtype probe'])
     jobs = scenarios(tier)
     for i, j in enumerate(jobs):
-        j['key'] = f"N={j['N']} shape={j['shape']} cap={j['cap']} q={j['queries']} max_steps={j.get('max_steps')}"
+        j['key'] = f"N={j['N']} shape={j['shape']} cap={j['cap']} q={j['queries']}x{j.get('nq', 1)} max_steps={j.get('max_steps')}"
     if only:
         jobs = [j for j in jobs if only in j['key']]
     growth = 0
